@@ -18,14 +18,15 @@ import logging
 from lib.verif import coq_list
 
 PROP_FILES = ['Props/C08.v']
-LEVEL = 'proof'
+LEVEL = 'partial'          # complete delivery is proved only for schedules without timer events (D08t)
 
 logging.disable(logging.CRITICAL)
 
 PSM = 0x1001
 HANDLE = 1
 SETUP_BUDGET = 60          # deliveries; the proved bound is < 12
-DATA_BUDGET_EXTRA = 64
+RETX_TIMEOUT = 2.0         # ClassicChannelSpec defaults, checked in Pair._spec
+MONITOR_TIMEOUT = 12.0
 
 
 def regen(ctx):
@@ -35,10 +36,20 @@ def regen(ctx):
 
 # ----------------------------------------------------------------------------- shim
 class FrozenLoop(asyncio.SelectorEventLoop):
-    """An event loop whose clock does not advance: call_later timers never become due."""
+    """An event loop whose clock only moves when the harness moves it: call_later timers
+    never become due on their own, and a timer scenario makes one fire by advancing `now`."""
+
+    now = 1000.0
 
     def time(self):
-        return 1000.0
+        return self.now
+
+
+async def _advance_clock(seconds):
+    loop = asyncio.get_running_loop()
+    loop.now += seconds
+    for _ in range(4):
+        await asyncio.sleep(0)
 
 
 def _run(coro):
@@ -107,6 +118,7 @@ class Pair:
         l2cap = self.l2cap
         return l2cap.ClassicChannelSpec(
             psm=PSM, mtu=c['mtu'], mps=c['mps'], tx_window_size=c['win'],
+            retransmission_timeout=RETX_TIMEOUT, monitor_timeout=MONITOR_TIMEOUT, max_retransmission=1,
             mode=(l2cap.TransmissionMode.ENHANCED_RETRANSMISSION if c['mode'] == 'ertm'
                   else l2cap.TransmissionMode.BASIC),
             fcs_enabled=c['fcs'])
@@ -367,7 +379,7 @@ def impl_setup_obs_for_compare(obs):
         exists, st, fcs, mtu, pmtu, p = e
         if p[0] == 'ertm' and (p[1] is None or p[2] is None):
             p = ('ertm',)     # attribute renamed: not an observable, do not compare
-        return (exists, st, fcs, mtu, pmtu, p)
+        return (exists, _canon_state(exists, st), fcs, mtu, pmtu, p)
     return {'a': end(obs['a'], True), 'b': end(obs['b'], False), 'wait': obs['wait'],
             'log_ab': obs['log_ab'], 'log_ba': obs['log_ba'], 'ended': obs['ended']}
 
@@ -378,7 +390,13 @@ def _norm_model_end(e, is_a, impl_e):
     exists, st, fcs, mtu, pmtu, p = e
     if impl_e is not None and impl_e[5] == ('ertm',) and p[0] == 'ertm':
         p = ('ertm',)
-    return (exists, st, fcs, mtu, pmtu, p)
+    return (exists, _canon_state(exists, st), fcs, mtu, pmtu, p)
+
+
+def _canon_state(exists, st):
+    # an unregistered channel still waiting for its Disconnection Response (open question in
+    # docs/C08.md) and an unregistered CLOSED one are the same observable: closed
+    return 'CLOSED' if (not exists and st in ('WAIT_DISCONNECT', 'CLOSED')) else st
 
 
 def setup_configs():
@@ -514,11 +532,16 @@ def gen_data_case(rng, big):
     return cfg, sched
 
 
-def run_data(cfg, sched, drain_seed):
+def run_data(cfg, sched, drain_seed, drain_choices=None):
     """Set the channel up (fixed round-robin schedule), then run the data schedule and drain
-    both wires (seeded choice of direction).  Returns the full label list executed, the wire
-    PDUs of the data phase and the sinks."""
+    both wires (seeded choice of direction, or the given choices at the points where both
+    wires hold something).  Returns the full label list executed, the wire PDUs of the data
+    phase and the sinks."""
     from lib.verif import Rng
+
+    for op in sched:
+        if op[0] == 'choices' and drain_choices is None:
+            drain_choices = list(op[1:])
 
     async def main():
         p = Pair(cfg)
@@ -551,6 +574,15 @@ def run_data(cfg, sched, drain_seed):
                 except Exception as e:  # pylint: disable=broad-except
                     errors.append(type(e).__name__)
                 labels.append(op)
+            elif op[0] == 'TA':
+                # A's retransmission timer (2 s) fires, if armed; only used in scenarios where B
+                # never sends I-frames, so no timer of B is armed
+                await _advance_clock(RETX_TIMEOUT + 0.5)
+                labels.append(op)
+            elif op[0] == 'MA':
+                # A's monitor timer (12 s) fires, if armed (else its retransmission timer, if armed)
+                await _advance_clock(MONITOR_TIMEOUT + 0.5)
+                labels.append(op)
             else:
                 d = op[0][1:]
                 if await p.deliver(d):
@@ -559,18 +591,27 @@ def run_data(cfg, sched, drain_seed):
                     return
             snap()
         for op in sched:
+            if op[0] == 'choices':
+                continue
             await one(op)
         rng = Rng(drain_seed)
         budget = 20000
+        points = []
         while (p.ab or p.ba) and budget > 0:
             if p.ab and p.ba:
-                d = 'AB' if rng.below(2) == 0 else 'BA'
+                if drain_choices is not None:
+                    k = drain_choices[len(points)] if len(points) < len(drain_choices) else 0
+                else:
+                    k = rng.below(2)
+                points.append(k)
+                d = 'AB' if k == 0 else 'BA'
             else:
                 d = 'AB' if p.ab else 'BA'
             await one(['D' + d])
             budget -= 1
         res.update({
             'labels': labels, 'errors': errors, 'trace': trace, 'drained': not (p.ab or p.ba),
+            'points': points,
             'wire_ab': [x.hex() for x in p.log_ab[base_ab:] + p.ab],
             'wire_ba': [x.hex() for x in p.log_ba[base_ba:] + p.ba],
             'delivered_ab': len(p.log_ab) - base_ab, 'delivered_ba': len(p.log_ba) - base_ba,
@@ -615,14 +656,18 @@ def data_oracle(cfg, res):
         return 'not-open', f"states {res['end_a'][1]}/{res['end_b'][1]} after the transfer"
     written = {'A': [mk_sdu(op[1], op[2]) for op in res['labels'] if op[0] == 'WA'],
                'B': [mk_sdu(op[1], op[2]) for op in res['labels'] if op[0] == 'WB']}
+    timers = any(op[0] in ('TA', 'MA') for op in res['labels'])
     for who, sink, src in (('B', res['sink_b'], written['A']), ('A', res['sink_a'], written['B'])):
         got = [bytes.fromhex(x) for x in sink]
+        if timers and got != src and got == src[:len(got)]:
+            return 'timer-stall', (f'a retransmission timer fired; the wires are empty but sink of {who} has '
+                                   f'{len(got)} of the {len(src)} SDUs the peer wrote (output blocked by the monitor handle)')
         if got != src:
             k = next((i for i, (x, y) in enumerate(zip(got, src)) if x != y), min(len(got), len(src)))
             return 'sink', (f'sink of {who} received {len(got)} SDUs, peer wrote {len(src)}; first difference at SDU {k}'
                             f' (got {len(got[k]) if k < len(got) else "-"} bytes, expected {len(src[k]) if k < len(src) else "-"})')
     # frames
-    for d, wire, sender, receiver in (('AB', res['wire_ab'], 'a', 'b'), ('BA', res['wire_ba'], 'b', 'a')):
+    for d, wire, receiver in (('AB', res['wire_ab'], 'b'), ('BA', res['wire_ba'], 'a')):
         cid = res['cid_' + receiver]
         nexp = 0
         acc = b''
@@ -672,6 +717,8 @@ def data_oracle(cfg, res):
                 acc = b''
                 cur_len = None
         src = written['A' if d == 'AB' else 'B']
+        if timers and sdus == src[:len(sdus)]:
+            continue
         if sdus != src or acc:
             return 'frames', f'{d}: the frames on the wire reassemble to {len(sdus)} SDUs, {len(src)} were written'
     # window: I-frames sent minus I-frames acknowledged by what the sender has received
@@ -682,9 +729,8 @@ def data_oracle(cfg, res):
     return None
 
 
-def _is_iframe(hx, fcs):
-    x = bytes.fromhex(hx)
-    return (x[4] & 1) == 0
+def _is_iframe(hx, _fcs=None):
+    return (bytes.fromhex(hx)[4] & 1) == 0
 
 
 def window_ledger(cfg, res):
@@ -728,6 +774,13 @@ def data_exprs(cfg, res):
                 return f'WriteA (mk_sdu {op[1]} {op[2]})'
             if op[0] == 'WB':
                 return f'WriteB (mk_sdu {op[1]} {op[2]})'
+            if op[0] == 'TA':
+                return 'TimeoutRetxA'
+            if op[0] == 'MA':
+                # a 12.5 s jump fires the monitor timer if it is armed, else the (2 s)
+                # retransmission timer if that is armed; never both (the monitor armed by the
+                # latter is due 12 s later)
+                return 'TimeoutMonA; TimeoutRetxA'
             return 'DeliverAB' if op[0] == 'DAB' else 'DeliverBA'
         return (f"ertm_case {cfg['a']['mps']} {cfg['a']['win']} {cfg['b']['mps']} {cfg['b']['win']} {fcs} "
                 f"{res['cid_a']} {res['cid_b']} {coq_list(res['labels'], lab)}")
@@ -745,14 +798,82 @@ def data_exprs(cfg, res):
 
 
 def data_signature(cfg, kind):
+    if kind == 'timer-stall':
+        return 'ertm:timer-stall'
     return f"data:{kind}:{cfg['a']['mode']}"
 
 
-def check_data(ctx, cases):
-    results = []
-    for cfg, sched in cases:
-        res = run_data(cfg, sched, ctx.rng.next())
-        results.append(res)
+def gen_timer_case(rng):
+    """A one-directional ERTM transfer (only A writes, so only A's timers can be armed) in
+    which A's retransmission timer - and possibly its monitor timer - fires."""
+    def side():
+        return {'mode': 'ertm', 'mps': rng.choice([1, 3, 10, 23]), 'win': rng.choice([1, 2, 3, 8, 63]),
+                'mtu': 2048, 'fcs': rng.chance(1, 2), 'feat': True}
+    a, b = side(), side()
+    b['mtu'] = 2047
+    cfg = {'a': a, 'b': b, 'srv': True}
+    sched = []
+    tag = 0
+    for _ in range(rng.choice([1, 2, 3])):
+        tag += 1
+        sched.append(['WA', tag, rng.choice([0, 1, b['mps'], 2 * b['mps'] + 1, 5 * b['mps'], 12 * b['mps']])])
+        for _ in range(rng.below(4)):
+            sched.append(['D' + rng.choice(['AB', 'BA'])])
+    pos = rng.below(len(sched) + 1)
+    sched.insert(pos, ['TA'])
+    if rng.chance(1, 2):
+        sched.append(['DAB'])
+        sched.append(['MA'])
+    return cfg, sched
+
+
+def all_drain_orders(cfg, sched, cap):
+    """Every order in which the two wires can be drained after the schedule (stateless DFS),
+    up to `cap` runs."""
+    stack = [[]]
+    n = 0
+    while stack and n < cap:
+        prefix = stack.pop()
+        res = run_data(cfg, sched, 0, drain_choices=prefix)
+        n += 1
+        yield res
+        if not res.get('open'):
+            return
+        pts = res['points']
+        for i in range(len(prefix), len(pts)):
+            if pts[i] == 0:
+                stack.append(pts[:i] + [1])
+
+
+SMALL_SCOPE = [
+    # (mps_a, win_a, mps_b, win_b, writes): all delivery orders are enumerated
+    (2, 1, 2, 2, [['WA', 1, 5], ['WB', 2, 3]]),
+    (3, 2, 2, 1, [['WA', 1, 7], ['WA', 2, 0], ['WB', 3, 4]]),
+    (1, 2, 1, 2, [['WA', 1, 3], ['WB', 2, 3]]),
+    (2, 2, 2, 2, [['WA', 1, 7], ['WB', 2, 6]]),
+]
+
+
+def check_small_scope(ctx, cap):
+    cases, results = [], []
+    for mps_a, win_a, mps_b, win_b, writes in SMALL_SCOPE:
+        cfg = {'a': {'mode': 'ertm', 'mps': mps_a, 'win': win_a, 'mtu': 2048, 'fcs': False, 'feat': True},
+               'b': {'mode': 'ertm', 'mps': mps_b, 'win': win_b, 'mtu': 2047, 'fcs': True, 'feat': True}, 'srv': True}
+        n = 0
+        for res in all_drain_orders(cfg, writes, cap):
+            cases.append((cfg, writes + [['choices'] + res.get('points', [])]))
+            results.append(res)
+            n += 1
+        ctx.count('data.small_scope_orders', n)
+    return check_data(ctx, cases, results)
+
+
+def check_data(ctx, cases, results=None):
+    if results is None:
+        results = []
+        for cfg, sched in cases:
+            res = run_data(cfg, sched, ctx.rng.next())
+            results.append(res)
     exprs, idx = [], []
     for k, ((cfg, sched), res) in enumerate(zip(cases, results)):
         if res.get('open'):
@@ -863,8 +984,10 @@ def run(ctx):
                 'both wires and every sink compared with run of Model/Ertm.v on the executed label list; '
                 'non-trivial = at least one SDU was segmented (or Basic mode). crc: seeded byte strings.')
     ctx.assumptions += [
-        'ERTM retransmission and monitor timers do not fire (the harness freezes the event-loop clock; '
-        'Model/Ertm.v has no timer transition; theorems are stated under this assumption)',
+        'ERTM retransmission and monitor timers do not fire: hypothesis no_timer of every ERTM theorem. The '
+        'harness freezes the event-loop clock, so no timer fires unless a scenario advances the clock on '
+        'purpose; those scenarios (only A writes) are compared with the model\'s TimeoutRetxA / TimeoutMonA '
+        'transitions and exhibit the known finding D08t (C08_ertm_timer_stall_refuted)',
         'the link is a pair of reliable FIFO wires; a schedule is an interleaving of writes and deliveries',
         'the sink does not write from inside on_sdu; writes happen only on an OPEN channel',
         'transmit window 1..63, MPS >= 1, SDU length <= 65535 (the 16-bit SDU length field)',
@@ -901,9 +1024,15 @@ def run(ctx):
     # ---- data path
     rng = ctx.rng
     cases = []
-    for k in range(ctx.n(110, 2500)):
+    for k in range(ctx.n(80, 2500)):
         cases.append(gen_data_case(rng, big=(k % 5 == 0)))
     batches.append(check_data(ctx, cases))
+    # ---- small scope: every delivery order of a few tiny scenarios
+    batches.append(check_small_scope(ctx, ctx.n(40, 4000)))
+    # ---- timers: scenarios outside the no_timer hypothesis (known finding D08t)
+    tcases = [gen_timer_case(rng) for _ in range(ctx.n(12, 200))]
+    batches.append(check_data(ctx, tcases))
+    ctx.count('data.timer_scenarios', len(tcases))
     batches.append(crc_cases(ctx, ctx.n(60, 600)))
     # ---- one evaluation of all model expressions (a single pass through the Coq lock)
     exprs = [e for ex, _ in batches for e in ex]
@@ -949,8 +1078,6 @@ def replay(ctx, obj):
     if r['kind'] == 'setup':
         cfg = r['cfg']
         if r.get('schedule'):
-            choices, pts = [], 0
-            # re-derive the choices from the schedule by running it step by step
             sched, _, obs = run_setup_schedule(cfg, r['schedule'])
         else:
             sched, _, obs = run_setup(cfg, [])
